@@ -58,7 +58,9 @@ func checkC14(p *core.Program, r *core.Report) {
 	r.Rule("R2", "the STRING lexer rule is termination-unambiguous (no accepted literal is a proper prefix of another) and accepts every strconv.Quote image, over the abstract alphabet {quote, backslash, other}")
 	r.Rule("R3", "operator tables: every Operator constant is a COMPARATOR literal of the grammar; aliases map grammar fragments to operators; Condition.String prints the condition's own operator; BoolCombination.String always parenthesises and joins with its own operator")
 	r.Rule("R4", "property prefixes: the writer's `fields.` / `urns.` prefixes pair with the reader's prefix arms and property types")
+	r.Rule("R5", "structure is kept by the parser's own rewriting: every type switch over QueryNode in contactql covers both node types, and Simplify flattens only children with the same operator and keeps their order (shared with C15/R5)")
 	r.Assumption("strconv.Quote/Unquote are inverse; structural identity of re-parsed queries for all inputs is not decided")
+	c15R5(p, r, p.Func("contactql", "evaluateNode"))
 
 	// ------------------------------------------------------------------ R1
 	esc := p.Func("flows", "ContactQueryEscaping")
